@@ -51,7 +51,7 @@ ASSUMPTIONS = ['the in-memory files carry the metadata the writers read '
                'two-digit years denote 1970-2069',
                'a 3-variable cloud_rain file whose size is also a whole '
                'number of 5-variable steps is excluded (format ambiguity)']
-BUDGET = {'quick': dict(examples=2400, max_s=200),
+BUDGET = {'quick': dict(examples=4800, max_s=200),
           'thorough': dict(examples=60000, max_s=2400)}
 
 
